@@ -59,12 +59,28 @@ def main():
             got = list(RI.SelectionRowIterable(base, lambda r: True).to_mapping(key))
             if not D.same_rows(got, list(d.values())):
                 reproduced(f"to_mapping({key}) over {rows} yields {got}")
-        leaf = E.make_leaf(set(cols), iteration.RowSequence(rows), name="L")
+        leaf = E.make_leaf(set(cols), iteration.RowSequence([dict(r) for r in rows]), name="L")  # the oracle keeps its own copy of the rows
         for s in D.ops_of_class("Sort", cols)[:24]:
             checked += 1
             got = [dict(r) for r in E.execute(leaf.sorted(list(s.terms)))]
             if not D.same_rows(got, D.sem(s, rows)):
                 reproduced(f"execute({leaf}.sorted({[str(t) for t in s.terms]})) over {rows} yields {got}, stable multi-key sort gives {D.sem(s, rows)}")
+        # sharing: executing one relation must not disturb what another relation over the same payload yields
+        for s in D.ops_of_class("Sort", cols)[:6]:
+            checked += 1
+            srt = leaf.sorted(list(s.terms))
+            both = [dict(r) for r in E.execute(leaf.chain(srt))]
+            if not D.same_rows(both, rows + D.sem(s, rows)):
+                reproduced(f"execute({leaf}.chain({srt})) over {rows} yields {both}, expected {rows + D.sem(s, rows)}")
+            list(E.execute(srt))
+            again = [dict(r) for r in E.execute(leaf)]
+            if not D.same_rows(again, rows):
+                reproduced(f"after executing {srt}, execute({leaf}) yields {again} instead of {rows}")
+            m = leaf.with_rows_satisfying(ref(D.A).gt(lit(-1))).materialized()
+            first = [dict(r) for r in E.execute(m)]
+            list(E.execute(m.sorted(list(s.terms))))
+            if not D.same_rows([dict(r) for r in E.execute(m)], first):
+                reproduced(f"after executing a sort of {m}, the materialization yields different rows")
     # converted callables
     allrows = [dict(zip(cols, v)) for v in itertools.product((-1, 0, 2), repeat=3)]
     for e in D.exprs(cols):
